@@ -23,6 +23,7 @@ type routingFocus struct {
 	methods    []string
 	reserved   bool // C08: percent-encoded targets with reserved characters and query strings
 	checkAllow bool // C11
+	strictHost bool // C09: a slash-adjusted hostname candidate must be reported by every entry point (no path-only fallback accepted)
 }
 
 type routingRun struct {
@@ -50,7 +51,7 @@ func (rr *routingRun) build() bool {
 		hosts = src.Intn("hosts", 6) != 0
 	}
 	pc := world.PoolCfg{Size: 3 + src.Intn("poolsize", 11), MaxSegs: 1 + src.Intn("maxsegs", 6), Hosts: hosts,
-		WildHeavy: sim.Bool(src, "wildheavy"), TSlash: src.Intn("tslash", 5), Fanout: src.Intn("fanout", 14) == 13}
+		WildHeavy: sim.Bool(src, "wildheavy"), TSlash: src.Intn("tslash", 5), Fanout: src.Intn("fanout", 14) == 13, Deep: src.Intn("deep", 14) == 13, Odd: src.Intn("oddbytes", 5) == 4}
 	rr.pool = world.GenPool(src, pc)
 	if len(rr.pool) == 0 {
 		return false
@@ -62,14 +63,19 @@ func (rr *routingRun) build() bool {
 	}
 	rr.w = w
 	rr.set = model.NewSet()
-	if pc.Fanout {
-		msg, ok := prefillFanout(w, rr.set, rr.cfg, rr.pool, &rr.nextTag)
+	if pc.Fanout || pc.Deep {
+		msg, ok := prefillFanout(src, w, rr.set, rr.cfg, rr.pool, &rr.nextTag)
 		if !ok {
 			rr.res.inc("runs_stopped_setup_write_disagrees_with_map_model")
 			return false
 		}
 		rr.history = append(rr.history, msg)
-		rr.res.inc("runs_with_fanout_above_50")
+		if pc.Fanout {
+			rr.res.inc("runs_with_fanout_above_50")
+		}
+		if pc.Deep {
+			rr.res.inc("runs_on_tree_deeper_than_25")
+		}
 	}
 	return true
 }
@@ -203,7 +209,7 @@ func (rr *routingRun) checkDirect(p world.Probe, rd world.Reader, where string) 
 	// When the reference answer is a slash-adjusted hostname route, whether fox detects that candidate (and therefore
 	// does not fall back to the path-only routes) is C08's question; C01 accepts the path-only answer as well.
 	var fallback, fallbackB *model.MatchResult
-	if a.Route != nil && a.TSR && a.ViaHost {
+	if a.Route != nil && a.TSR && a.ViaHost && !rr.f.strictHost {
 		fb := rr.set.MatchPathOnly(p.Method, p.Path, model.MatchOpts{})
 		fb2 := rr.set.MatchPathOnly(p.Method, p.Path, model.MatchOpts{AllowLeadingSlashCapture: true})
 		fallback, fallbackB = &fb, &fb2
@@ -219,7 +225,7 @@ func (rr *routingRun) checkDirect(p world.Probe, rd world.Reader, where string) 
 		}
 		// the converse: fox reports a slash-adjusted *hostname* candidate where the reference falls back to a path-only
 		// route; whether that candidate exists is again C08's question (known finding tsr-spurious-parent-leaf)
-		if o.Tag >= 0 && o.TSR && a.Route != nil && !a.ViaHost {
+		if o.Tag >= 0 && o.TSR && a.Route != nil && !a.ViaHost && !rr.f.strictHost {
 			if r := rr.findByTag(o.Tag); r != nil && r.Pat.Host != "" {
 				rr.res.inc("tolerance_host_tsr_is_c08")
 				return true
@@ -397,14 +403,14 @@ func (rr *routingRun) checkServeDirect(p world.Probe, where string) {
 		}
 		return obs.Kind != model.KRoute
 	}
-	if a.Route != nil && a.TSR && a.ViaHost {
+	if a.Route != nil && a.TSR && a.ViaHost && !rr.f.strictHost {
 		fb := rr.set.MatchPathOnly(p.Method, p.Path, model.MatchOpts{})
 		fb2 := rr.set.MatchPathOnly(p.Method, p.Path, model.MatchOpts{AllowLeadingSlashCapture: true})
 		if okFor(fb) || okFor(fb2) || (fmtMatch(fb) != fmtMatch(fb2) && obs.Kind == model.KRoute && leadingSlashValue(obs.Hit.Params)) {
 			return
 		}
 	}
-	if a.Route != nil && !a.TSR && !a.ViaHost && obs.Kind != model.KRoute {
+	if a.Route != nil && !a.TSR && !a.ViaHost && obs.Kind != model.KRoute && !rr.f.strictHost {
 		// fox may have stopped at a (spurious) slash-adjusted hostname candidate instead of falling back: C08's question
 		if lk := world.ObsLookup(rr.w.R, p); lk.Tag >= 0 && lk.TSR {
 			if r := rr.findByTag(lk.Tag); r != nil && r.Pat.Host != "" {
